@@ -1958,6 +1958,10 @@ func main() {
 		liveOuts, liveCrashes = runLiveAll(c.Tier)
 	}()
 	wg.Wait()
+	if len(liveOuts) > 0 {
+		o := liveOuts[len(liveOuts)/2]
+		c.Sample(map[string]any{"unit": o.Inst.String(), "cases": o.Cases, "outcomes": o.Outcomes, "result": "every boundary payload either arrived unchanged on the far side of the running relay or was dropped exactly when the reference says it cannot fit"})
+	}
 
 	type agg struct {
 		units, cases, ops int64
@@ -2044,10 +2048,6 @@ func main() {
 			c.Cap(fmt.Sprintf("part C: %d of %d instances run (stopped after %d crashes)", len(liveOuts), n, len(liveCrashes)))
 		}
 		parts["C-live"] = la
-		if len(liveOuts) > 0 {
-			o := liveOuts[len(liveOuts)/2]
-			c.Sample(map[string]any{"unit": o.Inst.String(), "cases": o.Cases, "outcomes": o.Outcomes, "result": "every boundary payload either arrived unchanged on the far side of the running relay or was dropped exactly when the reference says it cannot fit"})
-		}
 	}
 	if skipped > 0 {
 		c.Cap(fmt.Sprintf("time budget %s: %d of %d units not run", budget, skipped, len(t.units)))
